@@ -1,4 +1,4 @@
-import FluteModel.Lemmas.SchedFlow
+import FluteModel.Lemmas.SchedOut
 /-
   C12 - Transfer lifecycle.  All theorems quantify over every configuration, every FDT table and EVERY
   operation history (add / publish / remove / trigger / read / set_complete with arbitrary times).
@@ -157,16 +157,72 @@ theorem only_fdt_when_empty (cfg : Cfg) (tbl : List Nat) (ops : List Op) (now : 
   refine ⟨h1, ?_, held_nil_of_allNone _ h4⟩
   unfold nbObjects; rw [h3, hf]; rfl
 
+/-- ... and this holds for every further operation except `add_object`: over a whole suffix `ops'` of operations
+    (publish / remove / trigger / set_complete / read, any times) executed after the sender became empty, no `read`
+    returns an object packet.  (`heldOf = []` - no slot holds a transfer - is needed: right after `remove_object`
+    of an object in transfer `nb_objects` is 0 while that transfer still finishes, cf. `remove_semantics`.) -/
+theorem only_fdt_when_empty_ever (cfg : Cfg) (tbl : List Nat) (ops ops' : List Op)
+    (h0 : nbObjects (run (init cfg tbl) ops) = 0) (hh : heldOf (run (init cfg tbl) ops) = [])
+    (hna : ∀ op ∈ ops', notAdd op) (pre post : List Op) (now : Nat) (ticks : List (Nat × Nat))
+    (hs : ops' = pre ++ Op.read now ticks :: post) :
+    ∀ p t i b, (read (run (run (init cfg tbl) ops) pre) now ticks).2 ≠ Out.pkt p t i b := by
+  have hw := wf_run cfg tbl ops
+  generalize run (init cfg tbl) ops = s at *
+  have hf : s.files = [] := List.eq_nil_of_length_eq_zero h0
+  have hq : s.queue = [] := by
+    cases hql : s.queue with
+    | nil => rfl
+    | cons t r =>
+      have := hw.queueFiles t (by rw [hql]; simp)
+      rw [hf] at this; cases this
+  exact (idle_run ops' s ⟨hf, hq, allNone_of_held_nil _ hh⟩ hna).2 pre now ticks post hs
+
+/-- a removed or finished object is not listed by any LATER PUBLICATION (FDT instance created afterwards): a
+    publication that lists `toi` implies the object is still in the sender (not removed, count not reached).
+    Reading of "later FDTs": instances published later.  The instance published BEFORE keeps being repeated by the
+    FDT carousel with its old content until the next publication (in FullFDT mode the application decides when to
+    publish; `fdt.rs transfer_done` deliberately does not republish: `//self.publish(now).ok()`). -/
+theorem later_publications_exclude (cfg : Cfg) (tbl : List Nat) (ops : List Op) (toi : Nat)
+    (post pre : List Ev) (now k : Nat) (files : List Nat)
+    (hs : trace cfg tbl ops = post ++ Ev.pub now k files :: pre) (hin : toi ∈ files) :
+    (LM.run toi pre).removed = none ∧
+    ∃ a, (LM.run toi pre).args = some a ∧ (a.carousel = none → (LM.run toi pre).stops < burst a) := by
+  have h := checked_at post (Ev.pub now k files) pre (hs ▸ lifecycle_checked cfg tbl ops toi)
+  exact h hin
+
 /-- `read` always returns (the two `loop`s of `SenderSession::run` need at most two iterations; the model's
     fuel of 4 is never exhausted) - for EVERY state, reachable or not.
     PARTIAL with respect to the property clause "at any fixed instant repeated reads return nothing after
-    finitely many packets": the per-call termination is proved, the bound on the number of consecutive
-    non-empty reads at one instant (explicit measure over remaining transfers of the current bursts) is not;
-    it is FALSE for `fdt_duration = 0` (finding F24: every idle poll republishes) and otherwise exercised by
-    the read-until-none loops of the correspondence run. -/
+    finitely many packets": per-call termination is proved; the bound on the number of consecutive non-empty
+    reads at one instant is NOT proved in Lean.  It is validated with an explicit measure: the engine computes
+    `mu` (remaining packets of the transfers in progress + (2 max(1,max_transfer_count) + 1) transfers per object +
+    two transfers of every FDT instance that exists or can still be published at this instant) from its shadow
+    state before every read-until-none loop and fails (`C12:read-exceeds-measure`) when the loop is longer.
+    The clause is FALSE for `fdt_duration = 0`: `read_never_idle_fdt_duration_0` (finding F24). -/
 theorem read_terminates_partial (s : State) (now : Nat) (ticks : List (Nat × Nat)) :
     (read s now ticks).2 ≠ Out.hang :=
   read_no_hang s now ticks
+
+/-- F24, negation witness in general form: with `fdt_duration = 0` (FDT admitted) EVERY `read` after EVERY history
+    returns an FDT packet - repeated reads at a fixed instant never return `None`, whatever `n`, and no object
+    packet is ever sent. -/
+theorem read_never_idle_fdt_duration_0 (cfg : Cfg) (tbl : List Nat) (ops : List Op) (h0 : cfg.fdtDuration = 0)
+    (hfit : cfg.fdtFits = true) (now : Nat) (ticks : List (Nat × Nat)) (n : Nat) :
+    ∃ k id i, (reads (run (init cfg tbl) ops) now ticks (n + 1)).2 = Out.fdt k id i := by
+  have key : ∀ m, ∃ ops', (reads (run (init cfg tbl) ops) now ticks m).1 = run (init cfg tbl) ops' := by
+    intro m
+    induction m with
+    | zero => exact ⟨ops, rfl⟩
+    | succ m ih =>
+      obtain ⟨ops', e⟩ := ih
+      refine ⟨ops' ++ [.read now ticks], ?_⟩
+      show (read (reads (run (init cfg tbl) ops) now ticks m).1 now ticks).1 = _
+      rw [e]
+      unfold run; rw [List.foldl_append]; rfl
+  obtain ⟨ops', e⟩ := key n
+  show ∃ k id i, (read (reads (run (init cfg tbl) ops) now ticks n).1 now ticks).2 = _
+  rw [e]
+  exact read_zero_duration cfg tbl ops' h0 hfit now ticks
 
 /-! non-vacuity: a 3-packet object sent twice, removed during the second transfer: one more packet with B -/
 def cfg1 : Cfg := { mode := .full, fdtCarousel := .delay 1000, fdtDuration := 3600000000000, fdtStartId := 1, queues := [(0, 1)] }
@@ -182,5 +238,17 @@ example : (LM.run 1 (trace cfg1 [1] (hist.take 6))).full = 1 ∧ nbTransfers (ru
   decide
 
 example : nbObjects (run (init cfg1 [1]) hist) = 0 ∧ heldOf (run (init cfg1 [1]) hist) = [] := by decide
+
+/-! liveness needs a polling hypothesis: with `fdt_duration = 1 s` and exactly ONE `read` per second every poll finds
+    the FDT expired, republishes and returns the new FDT packet - the published object is never started.
+    (The application is expected to poll until `None`; then the FDT session answers `None` after its packet and the
+    object goes out: second example.)  This is why `exact_transfer_count` is proved as safety + disappearance only. -/
+def cfgS : Cfg := { mode := .full, fdtCarousel := .delay 1000, fdtDuration := 1000000000, fdtStartId := 1, queues := [(0, 1)] }
+def obj1 : AddArgs := { prio := 0, nSym := 1, maxCount := 1, carousel := none, start := none, target := none, allowStop := false }
+def slowPoll : List Op := [.add obj1, .publish 0] ++ (List.range 6).map (fun i => Op.read ((i + 1) * 1000000000) [])
+
+example : (LM.run 1 (trace cfgS [] slowPoll)).starts = 0 := by decide
+example : (LM.run 1 (trace cfgS [] ([.add obj1, .publish 0] ++ (List.replicate 6 (Op.read 1000000000 []))))).stops = 1 := by
+  decide
 
 end Flute.Props.C12
